@@ -353,6 +353,102 @@ int main(int argc, char** argv){ vr::parse(argc, argv); gray8_image_t img(200, 2
   NOT_REPRODUCED("apply_rasterizer draws only the current shape"); }
 '''
 
+# ------------------------------------------------------------------------------------------------ midpoint ellipse: draw_curve
+ELL = 'boost/gil/extension/rasterization/ellipse.hpp'
+R_ELL = [
+    ('R11.compat', r'pixels_are_compatible<pixel_t, Pixel>\(\)', '1', True),
+    ('R11.throw', r'throw std::runtime_error\("[^;]*\);', 'THROW();', True),
+    ('R6.drop_using', r'using pixel_t = typename View::value_type;', '', True),
+    ('R12.center2', r'point<unsigned int> center2\(center\);', 'upoint_t center2 = self->center;', True),
+    ('R12.c0', r'\bcenter2\[0\]', 'center2.x', True), ('R12.c1', r'\bcenter2\[1\]', 'center2.y', True),
+    ('R12.p0', r'\bpnt\[0\]', 'pnt.x', True), ('R12.p1', r'\bpnt\[1\]', 'pnt.y', True),
+    ('R12.array', r'std::array<std::ptrdiff_t, 4> co_ords = \{', 'ptrdiff_t co_ords[4] = {', True),
+    ('R12.bools', r'bool validity\[4\]\{\};', '_Bool validity[4] = {0, 0, 0, 0};', True),
+    ('R4.true', r'= true;', '= 1;', True),
+    ('R11.dims', r'auto const dims = view\.dimensions\(\);', 'const ptrdiff_t dims[2] = {g_view_w, g_view_h};', False),
+    ('R11.w', r'\bview\.width\(\)', 'g_view_w', False), ('R11.h', r'\bview\.height\(\)', 'g_view_h', False),
+    ('R11.last_write', r'view\(co_ords\[0\], co_ords\[3\]\) = pixel;\s*\}', 'VIEW_WRITE(co_ords[0], co_ords[3]); } ITER_END();', True),
+    ('R11.write', r'view\((co_ords\[\d\]), (co_ords\[\d\])\) = pixel;', r'VIEW_WRITE(\1, \2);', True),
+    ('R11.range_for', r'for \(point_t pnt : trajectory_points\)\s*\{', 'for (size_t i__ = 0; i__ < g_traj_n; i__++)\nELLIPSE_LOOP_CONTRACT\n{ point_t pnt = TRAJ_AT(i__); ITER_BEGIN(pnt);', True),
+]
+X_ELL = [X('draw_curve', ELL, r'void draw_curve\(View& view, Pixel const& pixel,\s*std::vector<point_t> const& trajectory_points\) const', count=1, rules=R_ELL)]
+ELL_C = r'''
+#define THROW() __CPROVER_assume(0)
+typedef struct { unsigned int x, y; } upoint_t;             /* point<unsigned int> */
+typedef struct { upoint_t center; upoint_t semi_axes; } ellipse_t;
+/* ghost view, ghost trajectory (first-quadrant points: the contract of obtain_trajectory, bounded native stand-in), ghost reflection */
+ptrdiff_t g_view_w, g_view_h; size_t g_traj_n;
+int g_refl;                                   /* which of the four reflections of the current trajectory point is watched: bit 0 = mirror x, bit 1 = mirror y */
+int64_t g_cx, g_cy;                           /* zero-based centre: center - 1 (the rasterizer's centre is one-based) */
+int64_t g_ex, g_ey; _Bool g_hit;
+static point_t TRAJ_AT(size_t i) { point_t p; __CPROVER_assume(0 <= p.x && p.x <= ((ptrdiff_t)1 << 31) && 0 <= p.y && p.y <= ((ptrdiff_t)1 << 31)); return p; }
+static void ITER_BEGIN(point_t p) { g_hit = 0; g_ex = (g_refl & 1) ? g_cx - p.x : g_cx + p.x; g_ey = (g_refl & 2) ? g_cy - p.y : g_cy + p.y; }
+static void VIEW_WRITE(ptrdiff_t x, ptrdiff_t y) { __CPROVER_assert(0 <= x && x < g_view_w && 0 <= y && y < g_view_h, "draw_curve writes only pixels inside the view");
+  if (x == g_ex && y == g_ey) g_hit = 1; }
+static void ITER_END(void) { __CPROVER_assert(IMPLIES(0 <= g_ex && g_ex < g_view_w && 0 <= g_ey && g_ey < g_view_h, g_hit), "each of the four reflections of a trajectory point that lies inside the view is written (4-fold symmetric set)"); }
+#define ELLIPSE_LOOP_CONTRACT \
+  __CPROVER_assigns(i__, g_hit, g_ex, g_ey) \
+  __CPROVER_loop_invariant(i__ <= g_traj_n) \
+  __CPROVER_decreases(g_traj_n - i__)
+void draw_curve(const ellipse_t* self)
+__CPROVER_requires(__CPROVER_is_fresh(self, sizeof(*self)))
+__CPROVER_requires(1 <= self->center.x && 1 <= self->center.y)                   /* documented: one-based positive centre co-ordinates */
+__CPROVER_requires(g_cx == (int64_t)self->center.x - 1 && g_cy == (int64_t)self->center.y - 1 && 0 <= g_refl && g_refl <= 3)
+__CPROVER_requires(0 <= g_view_w && g_view_w <= ((ptrdiff_t)1 << 31) && 0 <= g_view_h && g_view_h <= ((ptrdiff_t)1 << 31) && g_traj_n <= ((size_t)1 << 40))
+__CPROVER_assigns(g_hit, g_ex, g_ey)
+__CPROVER_ensures(1)
+@@draw_curve@@
+#ifndef VERIF_NATIVE
+void h_draw_curve(void){ ellipse_t* e; ptrdiff_t w, h; size_t n; int k; int64_t cx, cy; g_view_w = w; g_view_h = h; g_traj_n = n; g_refl = k; g_cx = cx; g_cy = cy; draw_curve(e); __CPROVER_assert(0, "VACUITY"); }
+#endif
+'''
+NATIVE_ELL = r'''
+#include <boost/gil.hpp>
+#include <boost/gil/extension/rasterization/ellipse.hpp>
+#include <vector>
+#include <set>
+#include "vreplay.hpp"
+using namespace boost::gil;
+int main(int argc, char** argv){ vr::parse(argc, argv); int N = vr::str("tier") == "thorough" ? 700 : 160;
+  long n = 0, f_box = 0, f_quad = 0, f_conn = 0, f_draw = 0, printed = 0;
+  for (int a = 1; a <= N; a++) for (int b = 1; b <= N; b++) { n++; midpoint_ellipse_rasterizer e({(unsigned)N + 2, (unsigned)N + 2}, {(unsigned)a, (unsigned)b}); std::vector<point_t> t = e.obtain_trajectory();
+    auto fail = [&](long& c, const char* w){ c++; if (printed++ < 5) std::printf("FAILCASE midpoint ellipse semi-axes (%d,%d): %s\n", a, b, w); };
+    bool box = true, conn = true; for (size_t i = 0; i < t.size(); i++) { if (t[i].x < 0 || t[i].x > a || t[i].y < 0 || t[i].y > b) box = false;
+      if (i && (t[i].x > t[i-1].x || t[i].x < t[i-1].x - 1 || t[i].y < t[i-1].y || t[i].y > t[i-1].y + 1)) conn = false; }
+    if (t.empty() || t[0].x != a || t[0].y != 0) fail(f_quad, "the trajectory does not start at (a, 0)");
+    if (!box) fail(f_box, "a trajectory point outside the first-quadrant bounding box [0,a] x [0,b]"); if (!conn) fail(f_conn, "consecutive trajectory points are not 8-connected / monotone"); }
+  // drawing: small ellipses into views of several shapes that contain the bounding box: painted set == 4-fold reflection of the trajectory
+  for (int a = 1; a <= 12; a++) for (int b = 1; b <= 12; b++) for (int W : {30, 64}) for (int H : {30, 64}) { n++; gray8_image_t img(W, H); fill_pixels(view(img), gray8_pixel_t(0));
+    unsigned cx = 15, cy = 15; midpoint_ellipse_rasterizer e({cx, cy}, {(unsigned)a, (unsigned)b}); auto v = view(img); apply_rasterizer(v, e, gray8_pixel_t(255));
+    std::set<std::pair<long,long>> want; for (auto p : e.obtain_trajectory()) for (int sx : {-1, 1}) for (int sy : {-1, 1}) want.insert({(long)cx - 1 + sx * p.x, (long)cy - 1 + sy * p.y});
+    bool ok = true; for (long y = 0; y < H; y++) for (long x = 0; x < W; x++) if ((v(x, y)[0] == 255) != (want.count({x, y}) != 0)) ok = false;
+    if (!ok) { f_draw++; if (printed++ < 5) std::printf("FAILCASE ellipse semi-axes (%d,%d) in a %dx%d view: painted set is not the 4-fold reflection of the trajectory\n", a, b, W, H); } }
+  std::printf("CLAUSE start %s %ld the first-quadrant trajectory starts at (a, 0)\n", f_quad ? "FAIL" : "PASS", f_quad);
+  std::printf("CLAUSE bbox %s %ld every trajectory point inside [0,a] x [0,b]\n", f_box ? "FAIL" : "PASS", f_box);
+  std::printf("CLAUSE connected %s %ld consecutive trajectory points are 8-connected and monotone\n", f_conn ? "FAIL" : "PASS", f_conn);
+  std::printf("CLAUSE draw %s %ld apply_rasterizer paints exactly the 4-fold reflection of the trajectory in views that contain the bounding box\n", f_draw ? "FAIL" : "PASS", f_draw);
+  std::printf("NATIVE cases=%ld window=semi-axes 1..%d x 1..%d (trajectory); semi-axes 1..12 in 30/64 x 30/64 views (drawing)\n", n, N, N); return 0; }
+'''
+REPLAY_ELL = r'''
+#include <boost/gil.hpp>
+#include <boost/gil/extension/rasterization/ellipse.hpp>
+#include <set>
+#include "vreplay.hpp"
+using namespace boost::gil;
+int main(int argc, char** argv){ vr::parse(argc, argv);
+  // (A) views of several shapes containing the bounding box: painted set == 4-fold reflection; (B) clipped ellipses in a sub-view: nothing outside the sub-view changes
+  for (int a = 1; a <= 10; a++) for (int b = 1; b <= 16; b++) for (int W : {40, 48, 96}) for (int H : {40, 48, 96}) { gray8_image_t img(W, H); fill_pixels(view(img), gray8_pixel_t(0));
+    unsigned cx = 20, cy = (unsigned)H - 18; midpoint_ellipse_rasterizer e({cx, cy}, {(unsigned)a, (unsigned)b}); auto v = view(img); apply_rasterizer(v, e, gray8_pixel_t(255));
+    std::set<std::pair<long,long>> want; for (auto p : e.obtain_trajectory()) for (int sx : {-1, 1}) for (int sy : {-1, 1}) want.insert({(long)cx - 1 + sx * p.x, (long)cy - 1 + sy * p.y});
+    for (long y = 0; y < H; y++) for (long x = 0; x < W; x++) if ((v(x, y)[0] == 255) != (want.count({x, y}) != 0))
+      REPRODUCED("ellipse centre (%u,%u) semi-axes (%d,%d) in a %dx%d view: pixel (%ld,%ld) %s", cx, cy, a, b, W, H, x, y, v(x, y)[0] == 255 ? "painted but not a reflection of a trajectory point" : "is a reflection of a trajectory point inside the view but was not painted"); }
+  for (int W : {100, 40}) for (int H : {40, 100}) { gray8_image_t big(W + 60, H + 60); fill_pixels(view(big), gray8_pixel_t(0)); auto sub = subimage_view(view(big), 30, 30, W, H);
+    midpoint_ellipse_rasterizer e({(unsigned)W / 2, (unsigned)H + 10}, {20, 25}); apply_rasterizer(sub, e, gray8_pixel_t(255));
+    for (long y = 0; y < H + 60; y++) for (long x = 0; x < W + 60; x++) if (view(big)(x, y)[0] == 255 && !(x >= 30 && x < 30 + W && y >= 30 && y < 30 + H))
+      REPRODUCED("clipped ellipse in a %dx%d sub-view: pixel (%ld,%ld) of the enclosing image, outside the sub-view, was written", W, H, x - 30, y - 30); }
+  NOT_REPRODUCED("draw_curve paints exactly the reflections inside the view"); }
+'''
+
 UNITS = [
     Unit('line', 'C20', LINE_C, extracts=X_LINE, replay=REPLAY_LINE,
          checks=[Check('point_count', 'h_line_point_count', enforce='line_point_count'),
@@ -377,10 +473,15 @@ UNITS = [
                  Check('apply_circle', 'h_apply_circle', enforce='apply_circle', loops=True, object_bits=12)],
          assumed=['rasterizer(begin(v)) writes exactly point_count() points into v[0, point_count()) (the contract proved in units line / circle)',
                   'std::vector<point_t> modelled by its size; a static vector starts with an arbitrary size left by earlier calls']),
+    Unit('ellipse', 'C20', ELL_C, extracts=X_ELL, replay=REPLAY_ELL,
+         checks=[Check('draw_curve', 'h_draw_curve', enforce='draw_curve', loops=True, timeout=600),
+                 Check('native_window', 'none', engine='N', native=NATIVE_ELL, timeout=1800)],
+         preconditions=['one-based centre co-ordinates >= 1 (documented), view dimensions <= 2^31, trajectory points in the first quadrant with co-ordinates <= 2^31'],
+         assumed=['obtain_trajectory returns first-quadrant points (bounded native stand-in: semi-axes 1..160 / 1..700)', 'view(x, y) = pixel writes pixel (x, y)']),
 ]
 
 META = dict(
-    not_covered=['trigonometric_circle_rasterizer (atan2/sin/cos: CBMC models not bit-accurate)', 'midpoint_ellipse_rasterizer',
+    not_covered=['trigonometric_circle_rasterizer (atan2/sin/cos: CBMC models not bit-accurate)', 'midpoint_ellipse_rasterizer::obtain_trajectory (Van Aken decision variables: no inductive invariant found; bounded native stand-in), closeness of the ellipse to the ideal curve',
                  'line: bounding box, one-pixel closeness and connectivity of the final step depend on the accumulated double error term: bounded native stand-in only',
                  'circle: closeness and symmetry: bounded native stand-in only'],
 )
